@@ -41,9 +41,19 @@ Definition settledb (inl : bool) (s : schema) (c : cas) : bool :=
 (* ---- what a save may change: ids of id-less structures that are written, taken fresh from the generator --------------
    c1 is c with the same views, the same objects in the same order with the same types and slots (shape_of), the generator
    advanced; an id present before is kept; an id present only afterwards is fresh (in [old next, new next)) and belongs to
-   a structure that is written (listed in `all` under that id) *)
-Definition only_ids_added (c c1 : cas) (all : list (xid * oid)) : Prop :=
+   a structure that is written (W i o: listed under that id by the traversal, or a sofa data array) *)
+Definition only_ids_added (c c1 : cas) (W : xid -> oid -> Prop) : Prop :=
   c_views c1 = c_views c /\ shape_of (c_heap c1) = shape_of (c_heap c) /\ c_next_id c <= c_next_id c1 /\
   (forall o f i, hget (c_heap c) o = Some f -> o_id f = Some i -> exists f1, hget (c_heap c1) o = Some f1 /\ o_id f1 = Some i) /\
   (forall o f f1 i, hget (c_heap c) o = Some f -> o_id f = None -> hget (c_heap c1) o = Some f1 -> o_id f1 = Some i ->
-     c_next_id c <= i < c_next_id c1 /\ In (i, o) all).
+     c_next_id c <= i < c_next_id c1 /\ W i o).
+Definition listed (all : list (xid * oid)) : xid -> oid -> Prop := fun i o => In (i, o) all.
+
+(* ---- premises of the traversal's totality (Reach, C15), as one boolean ---- *)
+Definition reach_inb (inl : bool) (s : schema) (c : cas) : bool :=
+  wf_heapb inl s (c_heap c) && seeds_liveb (c_heap c) (member_seeds c) && ids_okb (c_heap c) (c_next_id c).
+(* sofa data arrays are byte arrays (JSON writes them in the views loop, before the traversal) *)
+Definition sofa_arrays_bytesb (c : cas) : bool :=
+  forallb (fun v => match s_arr (v_sofa v) with
+                    | Some o => match hget (c_heap c) o with Some f => String.eqb (o_type f) "uima.cas.ByteArray" | None => false end
+                    | None => true end) (c_views c).
